@@ -38,6 +38,11 @@ CAP_BYTES = {
     'gr': lambda asn: cap(64, b'\x00\x78'),
     'as4': lambda asn: cap_as4(asn),
     'unk': lambda asn: cap(99, b'\x01\x02'),
+    # add-path with Send/Receive values that have no name (0, 4, 255) for IPv4 unicast itself, next to a named one for IPv6
+    'ap0': lambda asn: cap(69, b'\x00\x01\x01\x00'),
+    'ap4': lambda asn: cap(69, b'\x00\x01\x01\x04' + b'\x00\x02\x01\x03'),
+    'ap255': lambda asn: cap(69, b'\x00\x02\x01\x01' + b'\x00\x01\x01\xff'),
+    'ap3': lambda asn: cap(69, b'\x00\x01\x01\x03'),
     'grf': lambda asn: cap(64, b'\x80\x78\x00\x01\x01\x80'),          # graceful restart: restart flag, one family with the forwarding bit
     'llgr': lambda asn: cap(71, b'\x00\x01\x01\x80\x00\x00\x78'),
     'xnh': lambda asn: cap(5, b'\x00\x01\x00\x01\x00\x02'),
